@@ -18,10 +18,12 @@ from typing import Any, Callable, Dict, List, Optional, Sequence, Tuple
 import pyside
 import schema_gen as sg
 import vlib
+from t1_c import CT1, T1Error
 from vlib import Broken, Check, cbool, clist, cz, run_workers
 
 HEADER = """From Coq Require Import ZArith List Bool.
 From BP Require Import Bits Schema Spec CMem CRt CCase.
+From BPGen Require Import GenC.
 Import ListNotations.
 Open Scope Z_scope.
 """
@@ -441,9 +443,13 @@ def default_params(i: int, rng) -> sg.Params:
     return sg.Params()
 
 
+SCALE = float(os.environ.get("VERIF_CRT_SCALE", "1") or "1")     # <1 only for the developer's own experiments
+
+
 def gen_schema_cases(ck: Check, n_schemas: int, n_values: int, n_junk: int, tag: str = "gen",
                      params_for=None) -> List[Dict[str, Any]]:
     out = []
+    n_schemas = max(1, int(n_schemas * SCALE))
     for i in range(n_schemas):
         rng = random.Random(f"{ck.prop}:{ck.seed}:{tag}:{i}")
         s = sg.Gen(rng, (params_for or default_params)(i, rng)).schema()
@@ -508,6 +514,18 @@ def run_schemas(ck: Check, be: bool, items: List[Dict[str, Any]], tag: str, all_
         defs = f"Definition t_{i} : ty := {s.coq_ty()}.\n"
         exprs: List[str] = []
         metas: List[Any] = []
+        # T1: descriptors parsed from the emitted C vs the renderer model
+        try:
+            fieldnums = {cname(m): {nm: n for n, nm, _ in m.fields} for m in _msgs(s.top)}
+            d = CT1(r.get("generated", {})).top(cname(s.top), None, fieldnums)
+            defs += f"Definition d_{i} : desc := {d}.\n"
+            exprs.append(f"(t1_case t_{i} d_{i})")
+            metas.append((i, "t1", 0, None))
+            stats["t1_checked"] = stats.get("t1_checked", 0) + 1
+        except T1Error as e:
+            stats["t1_failed"] = stats.get("t1_failed", 0) + 1
+            if stats["t1_failed"] <= 3:
+                ck.broken(Broken(f"tie T1 (emitted C descriptors) on schema {it['origin']}: {e}", json.dumps(s.texts)[:2000]))
         if all_langs and "consts" in r:
             cs = r["consts"]
             for m in _msgs(s.top):
@@ -572,6 +590,13 @@ def run_schemas(ck: Check, be: bool, items: List[Dict[str, Any]], tag: str, all_
                          f"(C, Go const, Go Size(), Python) = {cfgname}",
                          {"schema": sg.schema_to_json(s), "message": k, "constants": cfgname,
                           "origin": it["origin"], "stage": "size-constant"}, found_input=True)
+            continue
+        if kind == "t1":
+            stats["t1_mismatches"] = stats.get("t1_mismatches", 0) + 1
+            if stats["t1_mismatches"] <= 3:
+                ck.broken(Broken(f"tie T1: the descriptors emitted for schema {it['origin']} (flag, nbits, sizeof-derived size, "
+                                 "to_flag, extensible, cap, field order) differ from the renderer model CRt.render",
+                                 json.dumps(s.texts)[:2000]))
             continue
         c = it["cases"][k]
         if kind == "store":
